@@ -15,6 +15,7 @@ package vsched
 import (
 	"context"
 	"fmt"
+	"reflect"
 	"runtime/pprof"
 	"strconv"
 	"sync"
@@ -261,6 +262,8 @@ type Chan[T any] struct {
 	closed  bool
 	cap     int
 	buf     []T
+
+	recvWaiting int // goroutines parked in a receive on this channel
 }
 
 // NewChanBuf replaces make(chan T, n).
@@ -269,7 +272,11 @@ func NewChanBuf[T any](n int) *Chan[T] { return &Chan[T]{s: current(), real: mak
 type pending[T any] struct {
 	v     T
 	taken bool
+	group *selGroup // non-nil: the send case of a select statement (at most one case of a group fires)
 }
+
+// selGroup ties the cases of one select statement together.
+type selGroup struct{ done bool }
 
 // NewChan replaces make(chan T).
 func NewChan[T any]() *Chan[T] { return &Chan[T]{s: current(), real: make(chan T)} }
@@ -316,15 +323,18 @@ func (c *Chan[T]) RecvOk() (T, bool) {
 		return v, ok
 	}
 	g := s.cur
-	s.yield(g, func() bool { return len(c.buf) > 0 || c.pendingSender() != nil || c.closed }, "channel receive")
+	c.recvWaiting++
+	func() {
+		defer func() { c.recvWaiting-- }()
+		s.yield(g, func() bool { return len(c.buf) > 0 || c.pendingSender() != nil || c.closed }, "channel receive")
+	}()
 	if len(c.buf) > 0 {
 		v := c.buf[0]
 		c.buf = c.buf[1:]
 		return v, true
 	}
 	if p := c.pendingSender(); p != nil {
-		p.taken = true
-		return p.v, true
+		return p.take(), true
 	}
 	var zero T
 	return zero, false
@@ -332,11 +342,20 @@ func (c *Chan[T]) RecvOk() (T, bool) {
 
 func (c *Chan[T]) pendingSender() *pending[T] {
 	for _, p := range c.senders {
-		if !p.taken {
+		if !p.taken && (p.group == nil || !p.group.done) {
 			return p
 		}
 	}
 	return nil
+}
+
+// take completes the rendezvous with a pending sender.
+func (p *pending[T]) take() T {
+	p.taken = true
+	if p.group != nil {
+		p.group.done = true
+	}
+	return p.v
 }
 
 // Close replaces close(c).
@@ -353,3 +372,199 @@ func (c *Chan[T]) Close() {
 	s.yield(s.cur, nil, "close")
 }
 
+// SelCase is one communication clause of a select statement.
+type SelCase interface {
+	prepare(g *selGroup)
+	ready(withDefault bool) bool
+	fired() bool
+	commit()
+	withdraw()
+	reflectCase() reflect.SelectCase
+	setRecv(v reflect.Value, ok bool)
+}
+
+// SendClause is `case c <- v`.
+type SendClause[T any] struct {
+	c *Chan[T]
+	v T
+	p *pending[T]
+}
+
+// RecvClause is `case v, ok := <-c`; Val and Ok hold what was received.
+type RecvClause[T any] struct {
+	c   *Chan[T]
+	Val T
+	Ok  bool
+}
+
+// SendCase builds the clause `case c <- v`.
+func SendCase[T any](c *Chan[T], v T) *SendClause[T] { return &SendClause[T]{c: c, v: v} }
+
+// RecvCase builds the clause `case ... <-c`.
+func RecvCase[T any](c *Chan[T]) *RecvClause[T] { return &RecvClause[T]{c: c} }
+
+func (sc *SendClause[T]) prepare(g *selGroup) {
+	if sc.c == nil || sc.c.cap > 0 {
+		return
+	}
+	sc.p = &pending[T]{v: sc.v, group: g}
+	sc.c.senders = append(sc.c.senders, sc.p)
+}
+func (sc *SendClause[T]) ready(withDefault bool) bool {
+	switch {
+	case sc.c == nil:
+		return false
+	case sc.c.closed:
+		return true // the send panics, as in Go
+	case sc.c.cap > 0:
+		return len(sc.c.buf) < sc.c.cap
+	case withDefault:
+		return sc.c.recvWaiting > 0 // a receiver is parked on the channel: it takes the value when it runs next
+	}
+	return sc.p.taken
+}
+func (sc *SendClause[T]) fired() bool { return sc.p != nil && sc.p.taken }
+func (sc *SendClause[T]) commit() {
+	if sc.c.closed {
+		panic("send on closed channel")
+	}
+	if sc.c.cap > 0 {
+		sc.c.buf = append(sc.c.buf, sc.v)
+		return
+	}
+	if sc.p == nil {
+		// select with default and a parked receiver: the value stays with the channel for that receiver
+		sc.c.senders = append(sc.c.senders, &pending[T]{v: sc.v})
+	}
+}
+func (sc *SendClause[T]) withdraw() {
+	if sc.p == nil || sc.p.taken {
+		return
+	}
+	for i, q := range sc.c.senders {
+		if q == sc.p {
+			sc.c.senders = append(sc.c.senders[:i:i], sc.c.senders[i+1:]...)
+			break
+		}
+	}
+}
+func (sc *SendClause[T]) reflectCase() reflect.SelectCase {
+	if sc.c == nil {
+		return reflect.SelectCase{Dir: reflect.SelectSend, Chan: reflect.ValueOf((chan T)(nil)), Send: reflect.ValueOf(sc.v)}
+	}
+	return reflect.SelectCase{Dir: reflect.SelectSend, Chan: reflect.ValueOf(sc.c.real), Send: reflect.ValueOf(sc.v)}
+}
+func (sc *SendClause[T]) setRecv(reflect.Value, bool) {}
+
+func (rc *RecvClause[T]) prepare(*selGroup) {}
+func (rc *RecvClause[T]) ready(bool) bool {
+	c := rc.c
+	return c != nil && (len(c.buf) > 0 || c.pendingSender() != nil || c.closed)
+}
+func (rc *RecvClause[T]) fired() bool { return false }
+func (rc *RecvClause[T]) commit() {
+	c := rc.c
+	switch {
+	case len(c.buf) > 0:
+		rc.Val, rc.Ok = c.buf[0], true
+		c.buf = c.buf[1:]
+	case c.pendingSender() != nil:
+		rc.Val, rc.Ok = c.pendingSender().take(), true
+	}
+}
+func (rc *RecvClause[T]) withdraw() {}
+func (rc *RecvClause[T]) reflectCase() reflect.SelectCase {
+	if rc.c == nil {
+		return reflect.SelectCase{Dir: reflect.SelectRecv, Chan: reflect.ValueOf((chan T)(nil))}
+	}
+	return reflect.SelectCase{Dir: reflect.SelectRecv, Chan: reflect.ValueOf(rc.c.real)}
+}
+func (rc *RecvClause[T]) setRecv(v reflect.Value, ok bool) {
+	if ok {
+		rc.Val = v.Interface().(T)
+	}
+	rc.Ok = ok
+}
+
+// Select replaces a select statement: it returns the index of the clause that fired, -1 for the default
+// clause.  Under the scheduler the statement is one scheduling point; when several clauses can proceed
+// the explorer chooses among them (Go chooses at random).
+func Select(withDefault bool, cases ...SelCase) int {
+	s := current()
+	if s == nil {
+		rc := make([]reflect.SelectCase, 0, len(cases)+1)
+		for _, c := range cases {
+			rc = append(rc, c.reflectCase())
+		}
+		if withDefault {
+			rc = append(rc, reflect.SelectCase{Dir: reflect.SelectDefault})
+		}
+		i, v, ok := reflect.Select(rc)
+		if i == len(cases) {
+			return -1
+		}
+		cases[i].setRecv(v, ok)
+		return i
+	}
+	g := s.cur
+	grp := &selGroup{}
+	if !withDefault {
+		for _, c := range cases {
+			c.prepare(grp)
+		}
+	}
+	anyReady := func() bool {
+		for _, c := range cases {
+			if c.ready(withDefault) {
+				return true
+			}
+		}
+		return false
+	}
+	if withDefault {
+		s.yield(g, nil, "select")
+	} else {
+		func() {
+			defer func() {
+				if r := recover(); r != nil {
+					for _, c := range cases {
+						c.withdraw()
+					}
+					panic(r)
+				}
+			}()
+			s.yield(g, anyReady, "select")
+		}()
+	}
+	chosen := -1
+	for i, c := range cases {
+		if c.fired() {
+			chosen = i // a receiver has taken the value of this send clause: it is the one that happened
+		}
+	}
+	if chosen < 0 {
+		var ready []int
+		for i, c := range cases {
+			if c.ready(withDefault) {
+				ready = append(ready, i)
+			}
+		}
+		switch len(ready) {
+		case 0:
+		case 1:
+			chosen = ready[0]
+		default:
+			chosen = ready[s.choose(len(ready), false)%len(ready)]
+		}
+	}
+	grp.done = true
+	for i, c := range cases {
+		if i != chosen {
+			c.withdraw()
+		}
+	}
+	if chosen >= 0 {
+		cases[chosen].commit()
+	}
+	return chosen
+}
